@@ -92,6 +92,12 @@ def gen_cases(tier, seed):
         for pos in POSITIONS:
             for mode in NORESULT_MODES + DAMAGE_MODES:
                 cases.append({"id": "%s-%s-%s" % (site, pos, mode), "sig": [site, "-", pos, mode], "site": site, "pos": pos, "mode": mode, "kind": "decrypt", "msg": "-"})
+    # a decryption that fails at one invocation and works at a later one: what comes out of the ciphertext still needs its signature checked
+    for site in ("decrypt-then-verify-assertion", "decrypt-then-verify-assertion-second-key-right"):
+        for msg in ("valid", "tampered"):
+            for pos in POSITIONS:
+                for mode in NORESULT_MODES + DAMAGE_MODES:
+                    cases.append({"id": "%s-%s-%s-%s" % (site, msg, pos, mode), "sig": [site, msg, pos, mode], "site": site, "pos": pos, "mode": mode, "kind": "decrypt", "msg": msg})
         for u in UNSTARTABLE:
             cases.append({"id": "%s-%s" % (site, u), "sig": [site, "-", "all", u], "site": site, "pos": "all", "mode": u, "kind": "decrypt", "msg": "-"})
     return cases
@@ -327,10 +333,19 @@ def run_case(case, ctx):
                 "obs": {"events": [monitors.slim(e) for e in evs][:6]}}
 
     if kind == "decrypt":
-        two = site == "decrypt-second-key-right"
-        sp, idp = _entities(ctx, (1, 0, int(two), 0), tool)
-        good_sp, good_idp = _entities(ctx, (1, 0, int(two), 0), None)
-        xml = fed.issue(good_idp, ident, sign_response=True, sign_assertion=False, encrypt_assertion=True)
+        two = site.endswith("second-key-right")
+        inner = site.startswith("decrypt-then-verify")
+        which = (0, 1, int(two), 0) if inner else (1, 0, int(two), 0)
+        sp, idp = _entities(ctx, which, tool)
+        good_sp, good_idp = _entities(ctx, which, None)
+        if inner:
+            # only the assertion is signed, and it travels encrypted; "tampered" = edited after signing, then encrypted by whoever did it
+            plain = fed.issue(good_idp, ident, sign_response=False, sign_assertion=True)
+            if case["msg"] == "tampered":
+                plain = _tamper(plain)
+            xml = xk.encrypt_assertions(plain, fed.key(2)[1])
+        else:
+            xml = fed.issue(good_idp, ident, sign_response=True, sign_assertion=False, encrypt_assertion=True)
         with Fault(ctx, case):
             resp, exc = fed.deliver(sp, xml, dict(OUT))
             evs = log_events()
@@ -344,6 +359,13 @@ def run_case(case, ctx):
         if has_identity and not genuine_dec:
             viol.append({"key": "C20/identity-without-genuine-decryption", "what": desc + ": identity %r, decrypt events %r" % (
                 fed.identity_of(resp).get("ava"), [monitors.slim(e) for e in evs if e.get("cmd") == "decrypt"])})
+        if inner and has_identity:
+            oks = [e for e in evs if monitors.genuine_ok(e) and e.get("id_attr_node", "").endswith(":Assertion")]
+            if case["msg"] == "tampered":
+                viol.append({"key": "C20/tampered-assertion-accepted-after-decryption-fault", "what": desc + ": identity %r, events %r" % (
+                    fed.identity_of(resp).get("ava"), [monitors.slim(e) for e in evs][:6])})
+            elif not oks:
+                viol.append({"key": "C20/decrypted-assertion-accepted-without-genuine-verification", "what": desc + ": events %r" % [monitors.slim(e) for e in evs][:6]})
         return {"outcome": outcome, "nontrivial": injected > 0, "violations": viol,
                 "counters": {"faults_injected": injected, "identity_yielded": int(has_identity), "genuine_decrypts": len(genuine_dec)},
                 "obs": {"events": [monitors.slim(e) for e in evs][:6]}}
